@@ -27,6 +27,11 @@ def run(ctx):
     for m, ma in mas.items():
         n, probs = ma.hook_protocol()
         res.append(("H1-H2 hook/step events", n, probs))
+        n, probs = ma.pair_problems(("W2",))
+        probs = [x for x in probs if "list read" in (x[0].construct or "")]
+        for pr, _, _ in probs:
+            pr.rule = "H1"
+        res.append(("H1 list read after the pre hook", n, probs))
         n, probs = ma.setter_order()
         res.append(("H3 parent assignments", n, probs))
         n, probs = ma.noop_guard_problems()
